@@ -261,7 +261,7 @@ func randEnv(r *rand.Rand) Env {
 	return Env{
 		"x": r.Intn(2) == 0, "y": r.Intn(2) == 0, "z": r.Intn(2) == 0,
 		"n": int64(r.Intn(5) - 1), "m": int64(r.Intn(4)),
-		"s": []string{"a", "b", ""}[r.Intn(3)],
+		"s": []string{"a", "b", "", "DNE", "fi"}[r.Intn(5)],
 		"l": [][]int64{{1, 2}, {}, {0, 3}}[r.Intn(3)],
 	}
 }
